@@ -462,6 +462,9 @@ def gen_gost(tier, rng, names):
                         cuts = sorted(rng.below(nblk + 1) for _ in range(max(0, k - 1)))
                         bounds = [0] + cuts + [nblk]
                         chunks = [(rng.below(16), rng.bytes(8 * (bounds[i + 1] - bounds[i]))) for i in range(k)]
+                        if rng.below(3) == 0:
+                            # one context for MAC and cipher: each chunk is also encrypted (unaligned dst) after it was MAC-ed
+                            chunks = [(sa | 0x40, d) for sa, d in chunks]
                         c = {"kind": "gmac", "fam": "gmac", "pat": rng.below(256), "be": be, "sbox": sbox,
                              "key_size": rng.choice([32, 256]), "key": rkey(rng, 256), "ka": rng.below(8),
                              "mac_size": mac_size, "mac_align": rng.below(8),
